@@ -34,7 +34,7 @@ ASSUMPTIONS = [
 ]
 TRUSTED = ["C20: termination of the real route functions is observed through a call budget on LaneletNetwork.find_lanelet_by_id "
            "(a counting subclass) derived from the number of simple paths of the graph, plus a 30 s wall-clock alarm"]
-REQUIRED_BUCKETS = ["poly", "poly/s=0", "poly/s=length", "poly/s=vertex", "poly/s=interior", "poly/s=out-of-range",
+REQUIRED_BUCKETS = ["poly", "poly3d", "poly/s=0", "poly/s=length", "poly/s=vertex", "poly/s=interior", "poly/s=out-of-range",
                     "poly/repeated-vertex", "polyfloat", "merge/joined-exact", "merge/open", "merge/unlinked", "merge/swapped-args",
                     "net", "net/cyclic", "net/diamond", "net/range=path-length", "net/range-huge", "net/exhaustive",
                     "net/pred-independent", "net/dangling-id"]
@@ -808,9 +808,63 @@ def run_net(ctx, case):
 
 # ------------------------------------------------------------------------------------------------ entry points
 
+QUADS = [(1, 2, 2, 3), (2, 3, 6, 7), (4, 4, 7, 9), (1, 4, 8, 9), (2, 6, 9, 11), (6, 6, 7, 11), (3, 4, 12, 13), (3, 4, 0, 5), (0, 0, 1, 1)]
+
+
+def gen_poly3(ctx):
+    """A lanelet with 3-D vertices (x, y, z) whose segments are scaled Pythagorean quadruples: exact 3-D segment lengths."""
+    r = ctx.rng
+    n = r.randint(2, 6)
+    x, y, z = (Fraction(r.randint(-64, 64), 4) for _ in range(3))
+    pts, lens = [[x, y, z]], []
+    for _ in range(n - 1):
+        a, b, c, d = r.choice(QUADS)
+        k = Fraction(r.choice([1, 2, 4, 8, 16, 24]), 8)
+        x, y, z = x + r.choice([-1, 1]) * a * k, y + r.choice([-1, 1]) * b * k, z + r.choice([-1, 1]) * c * k
+        pts.append([x, y, z])
+        lens.append(d * k)
+    return {"kind": "poly3", "center": [[rat(v) for v in p] for p in pts], "lens": [rat(v) for v in lens]}
+
+
+def run_poly3(ctx, case):
+    """3-D centre line: cumulative distance = arc length in 3-D; interpolate_position at the vertices' arc lengths returns the vertices."""
+    import numpy as np
+    from commonroad.scenario.lanelet import Lanelet
+    ctx.tag("poly3d")
+    ctx.case(case)
+    c = [[F(v) for v in p] for p in case["center"]]
+    lens = [F(v) for v in case["lens"]]
+    C = np.array([[float(v) for v in p] for p in c])
+    off = np.array([0.0, 2.0, 0.0])
+    res = call(lambda: Lanelet(C + off, C, C - off, 1))
+    if res[0] == "err":
+        ctx.fail(f"C20/Lanelet/raises-{res[1]}/3d", f"Lanelet constructor raises for a valid 3-D polyline: {res[2]}", case)
+        return
+    lan = res[1]
+    d = [float(v) for v in lan.distance]
+    ctx.compare(case, [rat(v) for v in d], ctx.driver.ask("C20", "cum", {"lens": case["lens"]}), "Lanelet.distance (3-D) vs CR.Arc.cumDist")
+    cum = [Fraction(0)]
+    for v in lens:
+        cum.append(cum[-1] + v)
+    if len(d) != len(cum) or any(abs(F(rat(a)) - b) > Fraction(1, 10 ** 9) * max(1, b) for a, b in zip(d, cum)):
+        ctx.fail("C20/distance/not-arc-length/3d", f"3-D centre line {C.tolist()}: distance = {d}, arc lengths = {[float(v) for v in cum]}", case)
+        return
+    for i, s in enumerate(cum):
+        r = call(lan.interpolate_position, float(s))
+        if r[0] == "err":
+            ctx.fail(f"C20/interpolate_position/raises-{r[1]}/3d", f"s={float(s)} (vertex {i}): {r[2]}", case)
+            return
+        cen = [float(v) for v in r[1][0]]
+        if any(abs(a - float(b)) > 1e-9 * max(1.0, abs(float(b))) for a, b in zip(cen, c[i])):
+            ctx.fail("C20/interpolate_position/centre-not-at-arc-length/3d", f"s={float(s)} is vertex {i} = {[float(v) for v in c[i]]}, got {cen}", case)
+            return
+
+
 def run_case(ctx, case):
     k = case.get("kind")
-    if k == "poly":
+    if k == "poly3":
+        run_poly3(ctx, case)
+    elif k == "poly":
         run_poly(ctx, case)
     elif k == "polyfloat":
         run_polyfloat(ctx, case)
@@ -829,6 +883,8 @@ def run(ctx):
         run_case(ctx, gen_poly(ctx, repeated=(i % 10 == 9)))
     for _ in range(ctx.n(150)):
         run_case(ctx, gen_polyfloat(ctx))
+    for _ in range(ctx.n(120)):
+        run_case(ctx, gen_poly3(ctx))
     for _ in range(ctx.n(300)):
         run_case(ctx, gen_merge(ctx))
     # exhaustive small graphs: <= 3 nodes in quick, <= 4 nodes in thorough (split over the workers)
